@@ -244,6 +244,34 @@ pub fn check_spec(id: &str) -> Option<CheckSpec> {
       ],
       notes: vec![],
     },
+    "C19" => CheckSpec {
+      property: id.into(),
+      level: "exploration",
+      lanes: vec![
+        lane("log/routing", crate::logpipe::LogFamily { faults: true, stop_anytime: false }, 40_000, 1_500_000),
+        lane("log/stop-anytime", crate::logpipe::LogFamily { faults: true, stop_anytime: true }, 40_000, 1_500_000),
+        lane("log/stop-anytime/no-faults", crate::logpipe::LogFamily { faults: false, stop_anytime: true }, 20_000, 700_000),
+      ],
+      assumptions: vec![
+        "shuttle executes every atomic as SeqCst: a change that only weakens a memory ordering is invisible".into(),
+        "the pipeline is built by hook H7 (mirror of init_from_file's appender loop, nothing installed globally); events enter at Dispatch::event / Log::log".into(),
+        "bounds: 1-3 appenders, root + <=4 named loggers, 1-3 emitters x <=5 events, 8 targets x 5 levels".into(),
+      ],
+      notes: vec!["reference routing model computed from the generated configuration; completeness is required for events whose emission returned before the stop began on appenders with the blocking overflow policy".into()],
+    },
+    "C20" => CheckSpec {
+      property: id.into(),
+      level: "exploration",
+      lanes: vec![
+        lane("log/roller", crate::rollsim::RollFamily, 60_000, 2_000_000),
+        lane("log/encoders-in-pipeline", crate::logpipe::LogFamily { faults: false, stop_anytime: false }, 40_000, 1_500_000),
+      ],
+      assumptions: vec![
+        "the roller runs over the real file system in a scratch directory; disk errors are not injected (the roller has no I/O seam), restarts are clean (the roller is dropped and re-opened)".into(),
+        "encoder totality is exercised in situ: generated messages (quotes, backslashes, newlines, control and non-ASCII characters, empty, 400+ bytes) flow through the real json_lines / pattern encoders inside the simulated pipeline and are parsed back; pattern strings are the default and one plain pattern only".into(),
+      ],
+      notes: vec!["the encoder half of C20 is a pure-input property; it is covered here only as far as the simulated pipeline's generated workload reaches (see DESIGN.md section 6 C20)".into()],
+    },
     "C10" => CheckSpec {
       property: id.into(),
       level: "exploration",
@@ -295,6 +323,8 @@ pub fn replay(path: &str) -> i32 {
     "CACHE-HIST" => run_family_replay(crate::cache::hist::HistFamily { snapshots: true, faults: true }, &v),
     "CACHE-POLICY" => run_family_replay(crate::cache::policy_seq::PolicyFamily, &v),
     "IOC" => run_family_replay(crate::ioc::IocFamily { container: crate::ioc::Where::Instance, faults: true, cycles: true }, &v),
+    "LOG-PIPE" => run_family_replay(crate::logpipe::LogFamily { faults: true, stop_anytime: true }, &v),
+    "ROLLER" => run_family_replay(crate::rollsim::RollFamily, &v),
     "LOCK" => run_family_replay(LockFamily { faults: true, cancel: true, starve: false }, &v),
     _ => Err(format!("unknown family {fam}")),
   };
